@@ -27,6 +27,16 @@ def gen(rng, spec):
     return search.gen_case(rng, max_n=6, head_left=rng.random() < 0.4)
 
 
+_gen = gen
+
+
+def gen(rng, spec):
+    case = _gen(rng, spec)
+    if rng.random() < 0.12:
+        case['config']['unary_penalty'] = rng.choice((-0.125, -0.5))      # a bonus instead of a penalty is accounted the same way
+    return case
+
+
 def run(spec, R):
     SC.run(ID, PROP, spec, R, gen, lambda s, c: s.get('parsed') and max(len(x[0]) for x in c['sentences']) >= 2)
 
